@@ -130,6 +130,10 @@ class Executor(ExternMixin, ExprMixin, CallMixin, BuiltinMixin, StmtMixin, Engin
             e2 = dict(env)
             e2['self_cached'] = v
             self.assume(self.truth(self.ev_spec(constraint, e2)))
+        for stmt in c.get('setup', []):
+            # input-shape construction (sharing between argument objects): plain assignments executed before the precondition
+            for node in ast.parse(stmt).body:
+                self.exec(node)
         for nm, r in self.clauses(c.get('requires', [])):
             self.assume(self.truth(self.ev_spec(r, env)))
         st.old_heap = st.snapshot_heap()
